@@ -25,7 +25,7 @@ func (r *FnRun) call(st *State, b *ssa.BasicBlock, idx int, x *ssa.Call) (Val, b
 	}
 	callee := cc.StaticCallee()
 	if callee == nil {
-		panic(unsupported("dynamic call"))
+		return r.dynamicCall(st, x, args), false
 	}
 	name := fullName(callee)
 	site := fmt.Sprintf("call.%s#%d", shortCallee(callee), r.siteIdx[x])
@@ -36,6 +36,12 @@ func (r *FnRun) call(st *State, b *ssa.BasicBlock, idx int, x *ssa.Call) (Val, b
 	}
 	if lk, ok := lockOps[name]; ok {
 		return r.lockOp(st, x, lk, args), false
+	}
+	for i, a := range args {
+		if fp, ok := a.(*FieldPtr); ok {
+			r.E.Notes["a field address is passed to "+shortCallee(callee)+" in "+r.FnName+" (the callee sees a raw address)"] = true
+			args[i] = fp.Addr
+		}
 	}
 	for _, n := range r.C.Inline {
 		if n == callee.Name() || n == name {
@@ -560,4 +566,45 @@ func (r *FnRun) builtinAppend(st *State, x *ssa.Call, args []Val) Val {
 	}
 	st.writes++
 	return &StructVal{T: x.Type(), N: sliceFields, F: []Val{data, n, cp}}
+}
+
+// dynamicCall: a call through a function value (e.g. a type descriptor's
+// Equal function). Modelled as an uninterpreted pure function of the function
+// value and the scalar arguments; trusted: such functions do not write memory.
+func (r *FnRun) dynamicCall(st *State, x *ssa.Call, args []Val) Val {
+	r.E.Trusted["calls through function values (type-descriptor Equal/Hasher functions) are pure: result is an uninterpreted function of the function value, the arguments and the byte memory; no heap writes"] = true
+	fv, ok := r.operand(st, x.Call.Value).(Term)
+	if !ok {
+		panic(unsupported("dynamic call of non-scalar function value"))
+	}
+	res := x.Call.Signature().Results()
+	if res.Len() != 1 {
+		panic(unsupported("dynamic call with other than one result"))
+	}
+	rs, ok := r.E.scalarSort(res.At(0).Type())
+	if !ok {
+		panic(unsupported("dynamic call with composite result"))
+	}
+	ts := []Term{fv}
+	sorts := []string{fv.Sort.SMT()}
+	for _, a := range args {
+		t, ok := a.(Term)
+		if !ok {
+			panic(unsupported("dynamic call with composite argument"))
+		}
+		ts = append(ts, t)
+		sorts = append(sorts, t.Sort.SMT())
+	}
+	ts = append(ts, st.memArr("M8"))
+	sorts = append(sorts, memSort("M8").SMT())
+	name := fmt.Sprintf("dyncall%d_%s", len(args), mangle(rs.SMT()))
+	root := r
+	for root.parent != nil {
+		root = root.parent
+	}
+	if root.ghostDecls == nil {
+		root.ghostDecls = map[string]string{}
+	}
+	root.ghostDecls[name] = fmt.Sprintf("(declare-fun %s (%s) %s)\n", name, strings.Join(sorts, " "), rs.SMT())
+	return Term{app(name, ts...), rs}
 }
